@@ -252,8 +252,10 @@ def run(ctx):
     ctx.need("U6", "functions below the mechanisms", nchk, 4)
     # "connect returns True iff the server accepted them": the flag discipline of C10 (A3) - truthy only under the mechanism's success,
     # mechanisms True only on OK, and a fresh connection starts unauthenticated
-    from .c10 import a3
+    from .c10 import a3, a8
     conn = a3(ctx, R)
+    # "announced by the server" means by THIS connection's server: the capability table starts empty (A8 of C10)
+    a8(ctx, R)
     ctx.rule("U7", "connect's verdict is the authenticator's verdict for THIS connection")
     acalls = [c for c in self_calls(conn, auth.name)]
     rets = [r for r in walk_no_nested(conn.node) if isinstance(r, ast.Return) and r.value is not None]
